@@ -90,6 +90,8 @@ impl FromSpecImpl<MissingVar> for ShapeBulkEvalError {
 impl From<MissingVar> for ShapeBulkEvalError { fn from(e: MissingVar) -> (r: Self) { ShapeBulkEvalError::MissingVar(e) } }
 pub assume_specification<T, A: core::alloc::Allocator, F: FnMut() -> T>[ Vec::<T, A>::resize_with ](v: &mut Vec<T, A>, new_len: usize, f: F)
     ensures final(v)@.len() == new_len;
+pub assume_specification<T: Clone>[ <[T]>::fill ](s: &mut [T], value: T)
+    ensures final(s)@.len() == old(s)@.len(), forall|i: int| 0 <= i < old(s)@.len() ==> final(s)@[i] == value;
 
 // =================== specification of binding ===================
 /// the conversion `Into<D>` of a coordinate or of a supplied variable value
@@ -122,6 +124,34 @@ pub open spec fn axis_bound<D: Transformable>(m: Seq<Vec<D>>, map: VarMap, x: Se
 }
 pub open spec fn mat_ok<D: Transformable>(m: Seq<Vec<D>>, map: VarMap, x: Seq<D>, y: Seq<D>, z: Seq<D>, t: Option<&Matrix4<f32>>) -> bool {
     m.len() == (if map.entries().len() >= 1 { map.entries().len() } else { 1 }) && rows_len(m, x.len() as int) && axis_bound(m, map, x, y, z, t, x.len() as int)
+}
+/// what the row filler may have written into a row for the free variable i: the final contents of some slice it returned Ok on
+#[verifier::prophetic]
+pub open spec fn wrote<D, F: Fn(&mut [D], VarIndex) -> Result<(), ShapeBulkEvalError>>(f: F, i: VarIndex, row: Seq<D>) -> bool {
+    exists|a: &mut [D]| #[trigger] f.ensures((a, i), Ok(())) && final(a)@ == row
+}
+/// the row filler may fail for the free variable i on a row of n samples
+pub open spec fn failed<D, F: Fn(&mut [D], VarIndex) -> Result<(), ShapeBulkEvalError>>(f: F, i: VarIndex, n: int) -> bool {
+    exists|a: &mut [D], e: ShapeBulkEvalError| #[trigger] f.ensures((a, i), Err(e)) && a@.len() == n
+}
+/// the row of every free variable of the map holds what the row filler wrote for that variable's own index
+#[verifier::prophetic]
+pub open spec fn vars_bound<D, F: Fn(&mut [D], VarIndex) -> Result<(), ShapeBulkEvalError>>(m: Seq<Vec<D>>, map: VarMap, f: F, upto: int) -> bool {
+    forall|k: int| 0 <= k < upto && (#[trigger] map.entries()[k]).0 is V ==> wrote(f, map.entries()[k].0->V_0, m[map.entries()[k].1 as int]@)
+}
+/// the row of every free variable holds, in every sample, the value supplied under that variable's identity
+pub open spec fn vals_bound<D, G: Into<D>>(m: Seq<Vec<D>>, map: VarMap, vars: Map<VarIndex, G>) -> bool {
+    forall|k: int, j: int| 0 <= k < map.entries().len() && (#[trigger] map.entries()[k]).0 is V && 0 <= j < m[map.entries()[k].1 as int]@.len()
+        ==> #[trigger] m[map.entries()[k].1 as int]@[j] == cv::<G, D>(vars[map.entries()[k].0->V_0])
+}
+/// the row of every free variable holds, sample by sample, the array supplied under that variable's identity
+pub open spec fn arrs_bound<D, G: Into<D>>(m: Seq<Vec<D>>, map: VarMap, vars: Map<VarIndex, Vec<G>>) -> bool {
+    forall|k: int, j: int| 0 <= k < map.entries().len() && (#[trigger] map.entries()[k]).0 is V && 0 <= j < m[map.entries()[k].1 as int]@.len()
+        ==> #[trigger] m[map.entries()[k].1 as int]@[j] == cv::<G, D>(vars[map.entries()[k].0->V_0]@[j])
+}
+/// the array supplied for some variable of the map has another length than the position arrays
+pub open spec fn bad_len<G>(m: VarMap, vars: Map<VarIndex, Vec<G>>, n: int) -> bool {
+    exists|k: int| 0 <= k < m.entries().len() && (#[trigger] m.entries()[k]).0 is V && vars.dom().contains(m.entries()[k].0->V_0) && vars[m.entries()[k].0->V_0]@.len() != n
 }
 /// some variable of the map is not supplied
 pub open spec fn missing<V>(m: VarMap, vars: Map<VarIndex, V>) -> bool {
@@ -331,17 +361,43 @@ def build(repo, trace):
     i, j, k = rsx.find_item(sh, r'^impl<E: BulkEvaluator> ShapeBulkEval<E>\nwhere', 0, 'impl ShapeBulkEval')
     bhdr = sh[i:j]
     bfns = []
-    for name in ['eval', 'eval_with_transform', 'no_vars', 'eval_raw']:
+    for name in ['eval', 'eval_with_transform', 'eval_with_var_arrays', 'eval_with_transform_and_var_arrays', 'eval_with_vars', 'eval_with_transform_and_vars', 'no_vars', 'var_array', 'var_value', 'eval_raw']:
         i2, j2, k2 = rsx.find_fn(sh, name, j + 1, k - 1)
         bfns.append(sh[rsx.line_start(sh, i2):k2])
         trace.items.append((SHAPE_RS, 'ShapeBulkEval::' + name))
-    trace.drop('ShapeBulkEval::{eval_with_vars, eval_with_var_arrays, .., var_value, var_array}: closures returned as `impl Fn` (the closure they build is the `copy_vars` argument of eval_raw, specified here by its hypotheses)')
     bbody = bhdr + '{\n' + '\n\n'.join(bfns) + '\n}\n'
     # the contract of eval_raw is placed after its `where` clause (Verus' order: signature, where, requires/ensures)
     old_w = ') -> Result<&[E::Data], ShapeBulkEvalError>\n    where\n        F: Fn(&mut [E::Data], VarIndex) -> Result<(), ShapeBulkEvalError>,\n    {'
     if bbody.count(old_w) != 1:
         raise ExtractError('signature of ShapeBulkEval::eval_raw changed')
     bbody = bbody.replace(old_w, ') -> (r: Result<&[E::Data], ShapeBulkEvalError>)\n    where\n        F: Fn(&mut [E::Data], VarIndex) -> Result<(), ShapeBulkEvalError>,\n/*@spec*/' + BULK_RAW.rstrip('\n') + '\n/*@endspec*/    {')
+    # R-deref: the generic parameter `V: Deref<Target = [G]>` of the array wrappers is instantiated with Vec<G>
+    n_d = bbody.count('        V: std::ops::Deref<Target = [G]>,\n')
+    if n_d != 3:
+        raise ExtractError('R-deref: expected 3 functions generic over V: Deref<Target = [G]> in ShapeBulkEval, found %d' % n_d)
+    bbody = bbody.replace('        V: std::ops::Deref<Target = [G]>,\n', '')
+    if bbody.count('vars: &ShapeVars<V>,') != 3:
+        raise ExtractError('R-deref: ShapeVars<V> parameters changed')
+    bbody = bbody.replace('vars: &ShapeVars<V>,', 'vars: &ShapeVars<Vec<G>>,')
+    trace.fire('R-deref', 3)
+    # R-zipmut: `for (a, b) in D.iter_mut().zip(S.deref().iter()) { *a = (*b).into(); }` -> index loop over D (the two lengths are
+    # equal here: the preceding statement returns an error otherwise, and the index into S is an obligation)
+    old_z = '            for (a, b) in data.iter_mut().zip(vars.deref().iter()) {\n                *a = (*b).into();\n            }\n'
+    if bbody.count(old_z) != 1:
+        raise ExtractError('R-zipmut: copy loop of ShapeBulkEval::var_array changed')
+    bbody = bbody.replace(old_z, '            for j_ in 0..data.len()   // R-zipmut\n                invariant data@.len() == old(data)@.len(), vars@.len() == data@.len(), <G as IntoSpec<E::Data>>::obeys_into_spec(), forall|k: int| 0 <= k < j_ ==> #[trigger] data@[k] == cv::<G, E::Data>(vars@[k]),\n            {\n                data[j_] = (vars[j_]).into();\n            }\n')
+    trace.fire('R-zipmut')
+    old_c = '        |data: &mut [E::Data], i: VarIndex| {\n            let vars = vars.get(i)'
+    if bbody.count(old_c) != 1:
+        raise ExtractError('closure of ShapeBulkEval::var_array changed')
+    bbody = bbody.replace(old_c, '        |data: &mut [E::Data], i: VarIndex| -> (r: Result<(), ShapeBulkEvalError>)\n' + VAR_ARRAY_CLOSURE.strip('\n') + '\n        {\n            let ghost vm_ = vars.m();\n            let vars = vars.get(i)')
+    trace.fire('R-let')
+    # the closure built by var_value gets its contract (R-let style: a postcondition on the closure header)
+    old_c = '        |data: &mut [E::Data], i: VarIndex| {\n            let value = vars.get(i)'
+    if bbody.count(old_c) != 1:
+        raise ExtractError('closure of ShapeBulkEval::var_value changed')
+    bbody = bbody.replace(old_c, '        |data: &mut [E::Data], i: VarIndex| -> (r: Result<(), ShapeBulkEvalError>)\n' + VAR_VALUE_CLOSURE.strip('\n') + '\n        {\n            let value = vars.get(i)')
+    trace.fire('R-let')
     # R-armblock: the three axis arms of the entries loop get a block (a ghost witness is recorded there)
     for ax, k in (('X', 0), ('Y', 1), ('Z', 2)):
         o = '                Var::%s => axes[%d] = Some(index),\n' % (ax, k)
@@ -431,11 +487,12 @@ def build(repo, trace):
     inj.attr('ShapeTracingEval::eval_raw', '#[verifier::loop_isolation(false)]')
     inj.attr('ShapeBulkEval::eval_raw', '#[verifier::loop_isolation(false)]')
     inj.append_items(PRELUDE.replace('@DATA_STUBS@', data_stub('Interval', 'iv', 'pub lower: f32, pub upper: f32') + data_stub('Grad', 'gd', 'pub v: f32, pub dx: f32, pub dy: f32, pub dz: f32')))
-    fns = ['BulkOutput::new', 'BulkOutput::borrow', 'ShapeBulkEval::eval_raw', 'ShapeBulkEval::eval', 'ShapeBulkEval::eval_with_transform', 'ShapeBulkEval::no_vars', 'ShapeTape::vars', 'ShapeTracingEval::eval_raw', 'ShapeTracingEval::eval', 'ShapeTracingEval::eval_with_transform',
+    fns = ['BulkOutput::new', 'BulkOutput::borrow', 'ShapeBulkEval::eval_raw', 'ShapeBulkEval::eval', 'ShapeBulkEval::eval_with_transform', 'ShapeBulkEval::no_vars', 'ShapeBulkEval::var_value', 'ShapeBulkEval::eval_with_vars', 'ShapeBulkEval::eval_with_transform_and_vars', 'ShapeBulkEval::var_array', 'ShapeBulkEval::eval_with_var_arrays', 'ShapeBulkEval::eval_with_transform_and_var_arrays', 'ShapeTape::vars', 'ShapeTracingEval::eval_raw', 'ShapeTracingEval::eval', 'ShapeTracingEval::eval_with_transform',
            'ShapeTracingEval::eval_with_transform_and_vars', 'ShapeTracingEval::eval_with_vars']
     obls = [Obligation('shape::' + f, 'shape', f, props=PROPS) for f in fns]
     obls += [Obligation('shape::<%s as Transformable>::transform' % T, 'shape', '*%s::transform' % T, props=['C14', 'C03' if T == 'Interval' else 'C05']) for T in ('Interval', 'Grad')]
-    return {'texts': {'base': inj.s}, 'obligations': obls, 'canary_fns': ['ShapeTracingEval::eval_raw', 'ShapeTracingEval::eval', 'ShapeBulkEval::eval_raw', 'ShapeBulkEval::eval']}
+    return {'texts': {'base': inj.s}, 'obligations': obls, 'canary_fns': ['ShapeTracingEval::eval_raw', 'ShapeTracingEval::eval', 'ShapeBulkEval::eval_raw', 'ShapeBulkEval::eval'],
+            'verus_args': ['--edition=2024']}   # the crate's edition (capture rules of `impl Trait` in return position)
 
 
 COORD = "coords::<F, E::Data>(x, y, z, transform)"
@@ -469,9 +526,71 @@ BULK_RAW = """
             forall|a: &mut [E::Data], b: VarIndex, r: Result<(), ShapeBulkEvalError>| copy_vars.ensures((a, b), r) ==> final(a)@.len() == a@.len(),
         ensures
             (x@.len() != y@.len() || x@.len() != z@.len()) ==> r is Err,
+            // the only other error is a failure of the row filler on a free variable of the shape
+            r is Err ==> (x@.len() != y@.len() || x@.len() != z@.len())
+                || exists|k: int| 0 <= k < tape.tape.vars_spec().entries().len() && (#[trigger] tape.tape.vars_spec().entries()[k]).0 is V && failed(copy_vars, tape.tape.vars_spec().entries()[k].0->V_0, x@.len() as int),
             // one sample per input position; the axes rows of the argument matrix hold the (transformed) positions at the map's indices
             r is Ok ==> r->Ok_0@.len() == x@.len()
                 && exists|m: Seq<Vec<E::Data>>| #[trigger] mat_ok(m, tape.tape.vars_spec(), x@, y@, z@, transform)
+                    // the row of every free variable is what the row filler wrote when called with that variable's own index
+                    && vars_bound(m, tape.tape.vars_spec(), copy_vars, tape.tape.vars_spec().entries().len() as int)
+                    && forall|i: int| 0 <= i < x@.len() ==> (#[trigger] r->Ok_0@[i]) == E::bulk_spec(&tape.tape, m)[0][i],
+"""
+
+VAR_VALUE_CLOSURE = """
+            ensures final(data)@.len() == old(data)@.len(),
+                r is Ok <==> vars.m().dom().contains(i),
+                r is Ok ==> (forall|k: int| 0 <= k < old(data)@.len() ==> #[trigger] final(data)@[k] == cv::<G, E::Data>(vars.m()[i])),
+"""
+
+VAR_ARRAY_CLOSURE = """
+            ensures final(data)@.len() == old(data)@.len(),
+                r is Ok <==> (vars.m().dom().contains(i) && vars.m()[i]@.len() == old(data)@.len()),
+                r is Ok ==> (forall|k: int| 0 <= k < old(data)@.len() ==> #[trigger] final(data)@[k] == cv::<G, E::Data>(vars.m()[i]@[k])),
+"""
+
+VAR_ARRAY = """
+        requires <G as IntoSpec<E::Data>>::obeys_into_spec(),
+        ensures
+            forall|d: &mut [E::Data], i: VarIndex| f.requires((d, i)),
+            // the row filler copies, sample by sample, the array supplied under the variable's own identity; it fails exactly for a
+            // variable that is not supplied or whose array has another length than the row
+            forall|d: &mut [E::Data], i: VarIndex, r: Result<(), ShapeBulkEvalError>| #[trigger] f.ensures((d, i), r) ==>
+                final(d)@.len() == d@.len() && (r is Ok <==> (vars.m().dom().contains(i) && vars.m()[i]@.len() == d@.len()))
+                && (r is Ok ==> forall|k: int| 0 <= k < d@.len() ==> #[trigger] final(d)@[k] == cv::<G, E::Data>(vars.m()[i]@[k])),
+"""
+
+BULK_ARRS = """
+        requires tape.tape.vars_spec().wf(), tape.tape.noutputs() == 1, <G as IntoSpec<E::Data>>::obeys_into_spec(),
+        ensures
+            // unequal lengths (of x, y, z, or of the array of a variable of the shape) and a variable of the shape that is not supplied are the only errors
+            r is Err <==> (x@.len() != y@.len() || x@.len() != z@.len() || missing(tape.tape.vars_spec(), vars.m()) || bad_len(tape.tape.vars_spec(), vars.m(), x@.len() as int)),
+            r is Ok ==> r->Ok_0@.len() == x@.len()
+                && exists|m: Seq<Vec<E::Data>>| #[trigger] mat_ok(m, tape.tape.vars_spec(), x@, y@, z@, %(t)s)
+                    && arrs_bound::<E::Data, G>(m, tape.tape.vars_spec(), vars.m())
+                    && forall|i: int| 0 <= i < x@.len() ==> (#[trigger] r->Ok_0@[i]) == E::bulk_spec(&tape.tape, m)[0][i],
+"""
+
+VAR_VALUE = """
+        requires <G as IntoSpec<E::Data>>::obeys_into_spec(),
+        ensures
+            forall|d: &mut [E::Data], i: VarIndex| f.requires((d, i)),
+            // the row filler writes the value supplied under the variable's own identity into every sample, and fails exactly for a variable that is not supplied
+            forall|d: &mut [E::Data], i: VarIndex, r: Result<(), ShapeBulkEvalError>| #[trigger] f.ensures((d, i), r) ==>
+                final(d)@.len() == d@.len() && (r is Ok <==> vars.m().dom().contains(i))
+                && (r is Ok ==> forall|k: int| 0 <= k < d@.len() ==> #[trigger] final(d)@[k] == cv::<G, E::Data>(vars.m()[i])),
+"""
+
+BULK_VARS = """
+        requires tape.tape.vars_spec().wf(), tape.tape.noutputs() == 1, <G as IntoSpec<E::Data>>::obeys_into_spec(),
+        ensures
+            // unequal lengths and a variable of the shape that is not supplied are the only errors
+            r is Err <==> (x@.len() != y@.len() || x@.len() != z@.len() || missing(tape.tape.vars_spec(), vars.m())),
+            // otherwise: one sample per position, computed on an argument matrix whose axes rows hold the (transformed) positions and whose
+            // row for each free variable holds, in every sample, the value supplied under that variable's identity
+            r is Ok ==> r->Ok_0@.len() == x@.len()
+                && exists|m: Seq<Vec<E::Data>>| #[trigger] mat_ok(m, tape.tape.vars_spec(), x@, y@, z@, %(t)s)
+                    && vals_bound::<E::Data, G>(m, tape.tape.vars_spec(), vars.m())
                     && forall|i: int| 0 <= i < x@.len() ==> (#[trigger] r->Ok_0@[i]) == E::bulk_spec(&tape.tape, m)[0][i],
 """
 
@@ -490,6 +609,12 @@ SPECS = {
  'BulkOutput::new': ('r: Self', '\n        ensures *r.data == *data, r.len == len\n'),
  'BulkOutput::borrow': ("r: &'a [T]", '\n        requires i < self.data@.len(), self.data@[i as int]@.len() >= self.len\n        ensures r@ == self.data@[i as int]@.subrange(0, self.len as int)\n'),
  'ShapeBulkEval::no_vars': ('r: Result<(), ShapeBulkEvalError>', '\n        ensures r is Err, final(unused_)@ == old(unused_)@\n'),
+ 'ShapeBulkEval::var_array': ('f: impl Fn(&mut [E::Data], VarIndex) -> Result<(), ShapeBulkEvalError>', VAR_ARRAY),
+ 'ShapeBulkEval::eval_with_var_arrays': (BRET, BULK_ARRS % {'t': 'None'}),
+ 'ShapeBulkEval::eval_with_transform_and_var_arrays': (BRET, BULK_ARRS % {'t': 'Some(transform)'}),
+ 'ShapeBulkEval::var_value': ('f: impl Fn(&mut [E::Data], VarIndex) -> Result<(), ShapeBulkEvalError>', VAR_VALUE),
+ 'ShapeBulkEval::eval_with_vars': (BRET, BULK_VARS % {'t': 'None'}),
+ 'ShapeBulkEval::eval_with_transform_and_vars': (BRET, BULK_VARS % {'t': 'Some(transform)'}),
  'ShapeBulkEval::eval': (BRET, BULK_WRAP % {'t': 'None'}),
  'ShapeBulkEval::eval_with_transform': (BRET, BULK_WRAP % {'t': 'Some(transform)'}),
  'ShapeTracingEval::eval': (RET, wrap_spec('None', 'Map::<VarIndex, f32>::empty()', 'f32', '<f32 as IntoSpec<E::Data>>::obeys_into_spec(),')),
@@ -513,8 +638,18 @@ PROOFS += [
  ('ShapeBulkEval::eval_raw', '$START', 0, False, "        let ghost x0_ = x; let ghost y0_ = y; let ghost z0_ = z;"),
  ('ShapeBulkEval::eval_raw', '        let mut j_: usize = 0;   // R-itermut', 0, True, "        let ghost nrows_ = self.scratch@.len();"),
  ('ShapeBulkEval::eval_raw', 'let mut axes = [None; 3];', 0, False, "        let ghost mut kx_: int = -1; let ghost mut ky_: int = -1; let ghost mut kz_: int = -1;\n        proof { assert(rows_len(self.scratch@, n as int)); }"),
- ('ShapeBulkEval::eval_raw', 'copy_vars(&mut self.scratch[index], i)?;', 0, False, "                    proof { assert(rows_len(self.scratch@, n as int)); }"),
+ ('ShapeBulkEval::eval_raw', r're:copy_vars\([^;]*\)\?;', 0, False, """                    proof {
+                        assert(rows_len(self.scratch@, n as int));
+                        assert(wrote(copy_vars, i, self.scratch@[index as int]@));
+                        assert(vs.entries()[q_ - 1] == (Var::V(i), index));
+                    }"""),
+ ('ShapeBulkEval::eval_raw', '        for i in 0..n', 0, True, "        let ghost sc_ = self.scratch@;"),
  ('ShapeBulkEval::eval_raw', '        let out = match self.eval.eval(', 0, True, """        proof {
+            assert(vars_bound(self.scratch@, *vs, copy_vars, vs.entries().len() as int)) by {
+                assert forall|k: int| 0 <= k < vs.entries().len() && (#[trigger] vs.entries()[k]).0 is V implies wrote(copy_vars, vs.entries()[k].0->V_0, self.scratch@[vs.entries()[k].1 as int]@) by {
+                    assert(wrote(copy_vars, vs.entries()[k].0->V_0, sc_[vs.entries()[k].1 as int]@));
+                }
+            }
             assert(mat_ok(self.scratch@, tape.tape.vars_spec(), x0_@, y0_@, z0_@, transform));
             assert(bsize(self.scratch@) == n);
         }"""),
@@ -534,10 +669,13 @@ LOOPS = [
                 axes@[0] is Some ==> (0 <= kx_ < q_ && vs.entries()[kx_] == (Var::X, axes@[0]->Some_0)),
                 axes@[1] is Some ==> (0 <= ky_ < q_ && vs.entries()[ky_] == (Var::Y, axes@[1]->Some_0)),
                 axes@[2] is Some ==> (0 <= kz_ < q_ && vs.entries()[kz_] == (Var::Z, axes@[2]->Some_0)),
+                it_@ == vs.entries(), vs.wf(), nrows_ >= vs.entries().len(),
+                vars_bound(self.scratch@, *vs, copy_vars, q_ as int),
             decreases it_.len() - q_"""),
  ('ShapeBulkEval::eval_raw', 'for i in 0..n', """            invariant
                 self.scratch@.len() == nrows_, rows_len(self.scratch@, n as int),
-                axis_bound(self.scratch@, *vs, x0_@, y0_@, z0_@, transform, i as int),"""),
+                axis_bound(self.scratch@, *vs, x0_@, y0_@, z0_@, transform, i as int),
+                forall|k: int| 0 <= k < vs.entries().len() && (#[trigger] vs.entries()[k]).0 is V ==> self.scratch@[vs.entries()[k].1 as int]@ == sc_[vs.entries()[k].1 as int]@,"""),
  ('ShapeTracingEval::eval_raw', 'while q_ < it_.len()', """            invariant
                 0 <= q_ <= it_.len(), it_@ == vs.entries(), vs.wf(), *vs == tape.tape.vars_spec(), self.scratch@.len() == vs.entries().len(),
                 forall|k: int| 0 <= k < q_ ==> !((#[trigger] vs.entries()[k]).0 is V && !vars.m().dom().contains(vs.entries()[k].0->V_0)),
